@@ -64,17 +64,24 @@ def render(cfg: List[Dict[str, Any]]) -> str:
         first = f"    - processor: {proc}"
         body: List[str] = []
         if n["ps"]:
-            def ent(en):
+            anchored = {int(en["al"]) for en in n["ps"] if en.get("al")}
+
+            def ent(en, ei=0):
+                if en.get("al"):
+                    return en["k"], f"*n{idx}e{int(en['al'])}", None
                 if en["sub"]:
-                    return en["k"], "{" + ", ".join(f"{s['k']}: {scalar(s['v'], s['sp'])}" for s in en["sub"]) + "}", en["sub"]
+                    pre = f"&n{idx}e{ei} " if ei in anchored else ""
+                    return en["k"], pre + "{" + ", ".join(f"{s['k']}: {scalar(s['v'], s['sp'])}" for s in en["sub"]) + "}", en["sub"]
                 return en["k"], scalar(en["v"], en["sp"]), None
             if n["flow"]:
-                body.append("      parameters: {" + ", ".join(f"{k}: {v}" for k, v, _ in map(ent, n["ps"])) + "}")
+                body.append("      parameters: {" + ", ".join(f"{k}: {v}" for k, v, _ in (ent(en, ei) for ei, en in enumerate(n["ps"], 1))) + "}")
             else:
                 body.append("      parameters:")
-                for en in n["ps"]:
-                    if en["sub"]:
-                        body.append(f"        {en['k']}:")
+                for ei, en in enumerate(n["ps"], 1):
+                    if en.get("al"):
+                        body.append(f"        {en['k']}: *n{idx}e{int(en['al'])}")
+                    elif en["sub"]:
+                        body.append(f"        {en['k']}:" + (f" &n{idx}e{ei}" if ei in anchored else ""))
                         for s in en["sub"]:
                             body.append(f"          {s['k']}: {scalar(s['v'], s['sp'])}")
                     else:
